@@ -16,7 +16,8 @@
 EXTENDS Integers, Sequences, FiniteSets, TLC, Json, IOUtils
 CONSTANT DIAG
 VARIABLES l, comms, par, q, ackSelf, ackKids, job, inSearch, search, bestCnt, nGo, nBest, nDone, mainJob, quitting, sess,
-          pend     \* result provenance: thread -> job id for which the result it is about to send was computed (event ResultFor)
+          pend,    \* result provenance: thread -> job id for which the result it is about to send was computed (event ResultFor)
+          optFin   \* options barrier: TRUE when every option handed over so far has been applied (mirrors optionsSetFinished)
 \* sess = [inDo, ready, outs]: E inside doSearch, isready awaiting readyok, bestmove lines printed (C05 session contract)
 Tr == ndJsonDeserialize(IOEnv.TRACE)
 Chk(name, cond, info) == IF cond THEN TRUE ELSE (DIAG /\ PrintT(<<"MISMATCH", name, l, info>>))
@@ -160,11 +161,17 @@ TReset == /\ Ev("Reset") /\ comms' = {} /\ par' = <<>> /\ q' = <<>> /\ ackSelf' 
 
 TInit == /\ l = 1 /\ comms = {} /\ par = <<>> /\ q = <<>> /\ ackSelf = <<>> /\ ackKids = <<>> /\ job = <<>> /\ inSearch = <<>>
          /\ search = FALSE /\ bestCnt = 0 /\ nGo = 0 /\ nBest = 0 /\ nDone = 0 /\ mainJob = 0 /\ quitting = FALSE
-         /\ sess = [inDo |-> FALSE, ready |-> 0, outs |-> 0] /\ pend = <<>>
+         /\ sess = [inDo |-> FALSE, ready |-> 0, outs |-> 0] /\ pend = <<>> /\ optFin = TRUE
 TResultFor == /\ Ev("ResultFor") /\ Un(vars)
 TNext0 == TResultFor \/ TReg \/ TSend \/ TRecv \/ TStopSent \/ TStopAckCall \/ TWJob \/ TWSearch \/ TGo \/ TBest \/ TDone \/ TNewJob \/ TResultSeen
          \/ TQuit \/ TOther \/ TEnd \/ TReset \/ TUnreg \/ TCmd \/ TReadyOk \/ TInfo \/ TBestOut \/ TDoSearch \/ TParamSet
 TNext == /\ TNext0
          /\ pend' = IF Tr[l].e = "ResultFor" THEN Put(pend, Tr[l].t, Tr[l].a) ELSE IF Tr[l].e = "Reset" THEN <<>> ELSE pend
+         \* A batch of options is pending from OptPending until the engine thread has taken it (OptsSwap with a > 0), applied all of
+         \* it (ParamSet ...) and found nothing more to take (OptsSwap with a = 0).  stopThread()/waitReady() wait for that, so a
+         \* search is never set up (Go) while options are pending or half applied.
+         /\ optFin' = IF Tr[l].e = "OptPending" THEN FALSE ELSE IF Tr[l].e = "OptsSwap" THEN Tr[l].a = 0
+                       ELSE IF Tr[l].e = "Reset" THEN TRUE ELSE optFin
+         /\ (Tr[l].e = "Go") => Chk("OptionsAppliedBeforeSearchStarts", optFin, <<"go number", nGo + 1>>)
 Accepted == TLCGet("stats").diameter - 1 = Len(Tr) \/ (PrintT(<<"REJECTED_AT", TLCGet("stats").diameter>>) /\ FALSE)
 =============================================================================
